@@ -698,6 +698,9 @@ const EXTRA: &[&str] = &[
     // explicit recursion groups of one member and of none are not the same as plain types
     "(module (rec (type $t (func))) (type $u (func (param i32))) (rec) (rec (type $s (struct (field i32)))) (func (type $t)) (func (type $u) (param i32)))",
     "(module (type $a (func)) (rec (type $b (struct (field (ref null $b))))) (rec (type $c (func)) (type $d (array i8))) (rec (type $e (func (result i32)))) (func (type $e) (result i32) i32.const 0))",
+    // every kind of name the text format gives: more named memories than globals, named table / tag / data / element / type / label
+    "(module (type $t (func)) (table $tab 1 funcref) (memory $m0 1) (memory $m1 2) (global $g i32 (i32.const 0)) (tag $e) (data $d \"x\") (elem $el func) (func $f (type $t) (local $l i32) block $lbl end (drop (i32.load $m1 (i32.const 0)))))",
+    "(module (memory $only 1) (func $f (drop (i32.load (i32.const 0)))))",
 ];
 
 pub fn run(ctx: &mut Ctx) {
